@@ -59,4 +59,53 @@ example : dispatch ⟨true, some .linbasex, .forward, false, 7, 7, false, true, 
 example : dispatch ⟨false, some .three_point, .inverse, false, 4, 3, false, true, ⟨true, true, true, true, true⟩⟩
     = .inverseOp .three_point := by decide
 
+/-! ### never substituted, no fallback, irrelevant options -/
+
+/-- **Never substituted**: a supported request is answered by exactly the requested method in
+    exactly the requested direction. -/
+theorem supported_honoured (r : Request) (h : supported r = true) :
+    ∃ m, r.method = some m ∧
+      ((r.dir = .inverse ∧ dispatch r = .inverseOp m) ∨
+       (r.dir = .forward ∧ m.implementsForward = true ∧ dispatch r = .forwardOp m)) := by
+  obtain ⟨vt, meth, d, oneD, rows, cols, cen, anyq, ⟨oOK, cOK, sOK, rOK, outOK⟩⟩ := r
+  cases meth with
+  | none => simp [supported] at h
+  | some mm =>
+    refine ⟨mm, rfl, ?_⟩
+    cases mm <;> cases d <;> cases vt <;>
+      simp [dispatch, methodDispatch, supported, Method.implementsForward] at h ⊢ <;>
+      (first | done | grind)
+
+/-- Whatever is returned names the requested method (no fallback to another method). -/
+theorem outcome_names_requested_method (r : Request) (m : Method)
+    (h : dispatch r = .inverseOp m ∨ dispatch r = .forwardOp m) : r.method = some m := by
+  rcases h with h | h
+  · exact (inverse_only_for_inverse r m h).2
+  · exact (forward_only_for_forward r m h).2.1
+
+/-- The outcome is a function of the method's own shape checks only through the width the method
+    receives: two requests that differ only in an option flag the method never consults get the
+    same outcome — e.g. `symmetrize_method` is irrelevant outside `abel.Transform`. -/
+theorem symmetrize_irrelevant_direct (r : Request) (b : Bool) (h : r.viaTransform = false) :
+    dispatch { r with opts := { r.opts with symmetrizeOK := b } } = dispatch r := by
+  obtain ⟨vt, meth, d, oneD, rows, cols, cen, anyq, ⟨oOK, cOK, sOK, rOK, outOK⟩⟩ := r
+  simp at h; subst h
+  cases meth with
+  | none => simp [dispatch]
+  | some mm => cases mm <;> cases d <;> simp [dispatch, methodDispatch]
+
+/-- Invalidating option names never rescues a request: if a request raises, it still raises
+    with every named option invalid. -/
+theorem raise_mono_opts (r : Request) (h : dispatch r = .raise) :
+    dispatch { r with opts := ⟨false, false, false, false, false⟩ } = .raise := by
+  rw [raises_iff_unsupported] at h ⊢
+  obtain ⟨vt, meth, d, oneD, rows, cols, cen, anyq, ⟨oOK, cOK, sOK, rOK, outOK⟩⟩ := r
+  cases meth with
+  | none => simp [supported]
+  | some mm =>
+    cases mm <;> cases d <;> cases vt <;>
+      simp [supported, Method.implementsForward] at h ⊢ <;> (first | done | grind)
+
+example : supported ⟨true, some .rbasex, .forward, false, 5, 7, true, true, ⟨true, true, false, false, true⟩⟩ = true := by decide
+
 end PyAbel.C20
